@@ -47,7 +47,73 @@ pub const INERT_NAMES: &[(&str, &str)] = &[
     (".hidden", "other"),
     ("\u{fc}n\u{ef}.txt", "other"),
     ("solstat_report.md", "report_name"),
+    ("na\u{ef}ve.md", "multibyte"),
+    ("\u{8a2d}\u{8a08}.txt", "multibyte"),
+    ("\u{e9}a.t.sol", "multibyte"),
+    ("\u{1f600}.sol.bak", "multibyte"),
+    ("x\u{301}y.SOL", "multibyte"),
 ];
+
+pub const NAME_ALPHABET: &[char] = &[
+    'a', 'b', 'c', 'x', 'y', 'z', 'A', 'B', 'T', 'S', '0', '1', '9', ' ', '-', '_', '.', ':', '#',
+    '(', ')', '~', '\u{e9}', '\u{ef}', '\u{fc}', '\u{df}', '\u{416}', '\u{8a2d}', '\u{8a08}',
+    '\u{66f8}', '\u{1f600}', '\u{301}',
+];
+
+pub const INERT_EXTS: &[&str] = &[
+    ".md", ".txt", "", ".SOL", ".Sol", ".t.sol", ".T.sol", ".t.SOL", ".sol.bak", ".json", ".solx",
+    ".sol ", ".t.sol.md",
+];
+
+pub fn random_stem(rng: &mut Rng) -> String {
+    let n = rng.range(0, 8);
+    (0..n).map(|_| *rng.pick(NAME_ALPHABET)).collect()
+}
+
+/// An eligible file name: from the fixed pool or a random valid-Unicode stem + ".sol". Never
+/// contains ".t.sol" (any case) anywhere.
+pub fn gen_eligible_name(rng: &mut Rng) -> String {
+    if rng.chance(1, 2) {
+        return rng.pick(ELIGIBLE_NAMES).to_string();
+    }
+    for _ in 0..10 {
+        let n = format!("{}.sol", random_stem(rng));
+        if crate::model::eligible_name(&n) && !n.to_lowercase().contains(".t.sol") {
+            return n;
+        }
+    }
+    "r.sol".to_string()
+}
+
+/// An inert file name: from the fixed pool or a random stem + a non-eligible extension.
+pub fn gen_inert_name(rng: &mut Rng) -> (String, &'static str) {
+    if rng.chance(1, 2) {
+        let (n, c) = *rng.pick(INERT_NAMES);
+        return (n.to_string(), c);
+    }
+    for _ in 0..10 {
+        let n = format!("{}{}", random_stem(rng), rng.pick(INERT_EXTS));
+        let lower = n.to_lowercase();
+        let mid_t_sol = lower.contains(".t.sol") && lower.ends_with(".sol") && !lower.ends_with(".t.sol");
+        if !n.is_empty() && n != "." && n != ".." && !crate::model::eligible_name(&n) && !mid_t_sol {
+            return (n, "random_unicode");
+        }
+    }
+    ("r.txt".to_string(), "random_unicode")
+}
+
+pub fn gen_dir_name(rng: &mut Rng) -> String {
+    if rng.chance(2, 3) {
+        return rng.pick(DIR_NAMES).to_string();
+    }
+    for _ in 0..10 {
+        let n = format!("{}{}", random_stem(rng), rng.pick(&["", "", ".sol", ".t.sol", ".d"]));
+        if !n.is_empty() && n != "." && n != ".." {
+            return n;
+        }
+    }
+    "d".to_string()
+}
 
 pub const DIR_NAMES: &[&str] = &[
     "sub", "lib", "deep", "a b", "lib.sol", "test.t.sol", "z", "0", "\u{e9}t\u{e9}",
@@ -176,8 +242,8 @@ pub fn gen_tree(
         if depth >= k.max_depth {
             continue;
         }
-        let name = *rng.pick(DIR_NAMES);
-        let p = join(&parent, name);
+        let name = gen_dir_name(rng);
+        let p = join(&parent, &name);
         if world.nodes.contains_key(&p) {
             continue;
         }
@@ -189,8 +255,8 @@ pub fn gen_tree(
         let n_files = rng.range(0, k.max_files_per_dir);
         for _ in 0..n_files {
             if rng.chance(k.inert_pct, 100) {
-                let (name, class) = *rng.pick(INERT_NAMES);
-                let p = join(d, name);
+                let (name, class) = gen_inert_name(rng);
+                let p = join(d, &name);
                 if world.nodes.contains_key(&p) {
                     continue;
                 }
@@ -209,7 +275,7 @@ pub fn gen_tree(
                     let other = rng.pick(&info.eligible).clone();
                     crate::world::base_name(&other).to_string()
                 } else {
-                    rng.pick(ELIGIBLE_NAMES).to_string()
+                    gen_eligible_name(rng)
                 };
                 let p = join(d, &name);
                 if world.nodes.contains_key(&p) {
@@ -226,7 +292,7 @@ pub fn gen_tree(
     while info.eligible.len() < k.min_eligible && guard < 50 {
         guard += 1;
         let (d, _) = dirs[rng.below(dirs.len())].clone();
-        let name = rng.pick(ELIGIBLE_NAMES).to_string();
+        let name = gen_eligible_name(rng);
         let p = join(&d, &name);
         if world.nodes.contains_key(&p) {
             continue;
